@@ -42,6 +42,11 @@ type Rand struct {
 	Override map[int][]byte
 	// Force4 is consumed by successive 4-byte reads (instance-tag generation) before the DRBG is used
 	Force4 [][]byte
+	// BlockAt (>= 0): the read with this index announces itself on Blocked and waits for Release (a randomness
+	// source is user code and may take its time: a hardware token, an entropy daemon)
+	BlockAt int
+	Blocked chan struct{}
+	Release chan struct{}
 	// Force40 is consumed by successive 40-byte reads (D-H exponents) before the DRBG is used
 	Force40 [][]byte
 }
@@ -93,7 +98,7 @@ func mustHex(s string) []byte {
 }
 
 // NewRand creates a healthy source.
-func NewRand(seed uint64) *Rand { return &Rand{Seed: seed, FailAt: -1} }
+func NewRand(seed uint64) *Rand { return &Rand{Seed: seed, FailAt: -1, BlockAt: -1} }
 
 var errInjected = errors.New("injected randomness failure")
 
@@ -124,6 +129,10 @@ func (r *Rand) Read(p []byte) (int, error) {
 	i := r.idx
 	r.idx++
 	r.hist = (r.hist ^ uint64(i)<<20 ^ uint64(len(p))) * 1099511628211
+	if r.BlockAt >= 0 && i == r.BlockAt && r.Blocked != nil {
+		close(r.Blocked)
+		<-r.Release
+	}
 	if r.FailAt >= 0 && i >= r.FailAt && (r.FailFor <= 0 || i < r.FailAt+r.FailFor) {
 		r.Failed++
 		switch r.FailMode {
